@@ -164,6 +164,16 @@ def recheck_proofs(pid, workdir):
     return res
 
 
+def load_corpus(pid):
+    """Minimised cases that once failed (witnesses of findings): they run first on every run."""
+    import glob
+    out = []
+    for f in sorted(glob.glob(os.path.join(VERIF, "corpus", f"{pid}-*.json"))):
+        with open(f) as fh:
+            out.append(json.load(fh))
+    return out
+
+
 def load_known_findings():
     p = os.path.join(VERIF, "known_findings.json")
     if not os.path.exists(p):
